@@ -1733,6 +1733,11 @@ func (p *Posix) checkUploadIDExists(bucket, object, uploadID string) ([32]byte, 
 	sum := sha256.Sum256([]byte(object))
 	objdir := filepath.Join(bucket, metaTmpMultipartDir, fmt.Sprintf("%x", sum))
 
+	// an empty id would name the directory that holds all uploads of the key
+	if uploadID == "" {
+		return [32]byte{}, s3err.GetAPIError(s3err.ErrNoSuchUpload)
+	}
+
 	_, err := os.Stat(filepath.Join(objdir, uploadID))
 	if errors.Is(err, fs.ErrNotExist) {
 		return [32]byte{}, s3err.GetAPIError(s3err.ErrNoSuchUpload)
@@ -1922,7 +1927,7 @@ func (p *Posix) AbortMultipartUpload(_ context.Context, mpu *s3.AbortMultipartUp
 	objdir := filepath.Join(bucket, metaTmpMultipartDir, fmt.Sprintf("%x", sum))
 
 	_, err = os.Stat(filepath.Join(objdir, uploadID))
-	if err != nil {
+	if err != nil || uploadID == "" {
 		return s3err.GetAPIError(s3err.ErrNoSuchUpload)
 	}
 
@@ -2267,6 +2272,11 @@ func (p *Posix) UploadPart(ctx context.Context, input *s3.UploadPartInput) (*s3.
 	sum := sha256.Sum256([]byte(object))
 	objdir := filepath.Join(metaTmpMultipartDir, fmt.Sprintf("%x", sum))
 	mpPath := filepath.Join(objdir, uploadID)
+
+	// an empty id would name the directory that holds all uploads of the key
+	if uploadID == "" {
+		return nil, s3err.GetAPIError(s3err.ErrNoSuchUpload)
+	}
 
 	_, err = os.Stat(filepath.Join(bucket, mpPath))
 	if errors.Is(err, fs.ErrNotExist) {
